@@ -18,8 +18,12 @@
    * [indep k gs]: every group has a cache, destinations pairwise distinct, no source is a
      destination.  For push the destinations are the remotes (distinct by construction of
      collect), so this only says "a cache is not a remote".  For fetch it restricts to one cache
-     per remote group - hence C18_fetch_exact_partial (DESIGN: any number of groups per cache;
-     the sequential form of the counts, C18_counts_seq, has no such restriction).
+     per remote group (C18_fetch_exact_partial, kept); the general case - any number of remote
+     groups delivering into one cache - is C18_fetch_exact / C18_checkout, which need only
+     [seqok] (every group has a cache; no remote is a cache) and hypotheses on the INITIAL stores:
+     content addressing across all stores, flat listings, closed caches, [req_closed] (a group
+     requests a directory together with the files it lists); well-formedness of every transfer at
+     its turn is derived (turns_wf), not assumed.
    * "the group's cache holds the group's request" (hypothesis 7 of C18_push): collect keeps one
      cache per remote (the first prefix's).  This is the exact complement of the two recorded
      findings (known_findings.json): it says that every remote group is served by ONE cache holding
@@ -31,6 +35,10 @@
      key) the statement is false: C18_push_refuted, witness evaluated by vm_compute, the same
      input reproduces on the implementation (corpus case of harness/props/c18.py).
    * [p_err out = None]: push / fetch returned (no exception escaped).
+   * Uploads are atomic in this model ([group_in] sets t_part := false of Model/Transfer.v: no
+     truncated leftover, no Partial event - no_partial); C04 covers non-atomic uploads for a single
+     transfer.  [wf] therefore also carries C04's trunc_unparsable, which for group_in reads
+     "the empty byte string does not parse as a listing".
 
    Deviation from DESIGN: C18_resolve is over the hand-written [getitem] (line-by-line model of
    __getitem__, tied by a dense differential check), not over a translator unit. *)
@@ -137,6 +145,111 @@ Theorem C18_fetch_exact_partial : forall e m idx w out,
 Proof. exact fetch_exact. Qed.
 Print Assumptions C18_fetch_exact_partial.
 
+(* fetch, ANY number of remote groups per cache, no fault: every cache holds the whole request of
+   each of its groups; whatever a cache gained was requested by one of its groups, is reachable
+   from the index and has the bytes it has in that group's remote.  Into empty caches: exactly. *)
+Theorem C18_fetch_exact : forall e m idx w out,
+  ord_ok (e_bord e) -> ord_ok (e_dord e) ->
+  (forall b l f, e_parse e b = Some l -> In f l -> is_dir_oid f = false) ->
+  e_parse e [] = None ->
+  (forall s1 s2 D b1 b2, lookup D (sget w s1) = Some b1 -> lookup D (sget w s2) = Some b2 ->
+                         e_parse e b1 = e_parse e b2) ->
+  run_round e RFetch m idx w = out -> p_err out = None ->
+  seqok RFetch (collect m idx) ->
+  (forall g, In g (collect m idx) -> closed (e_parse e) (sget w (gc g))) ->
+  (forall g, In g (collect m idx) -> req_closed e w g) ->
+  (forall s o, e_fails e s o = false) ->
+  (forall g o, In g (collect m idx) -> In o (g_req g) -> has (sget w (g_data g)) o = true) ->
+  (forall g D b, In g (collect m idx) -> is_dir_oid D = true ->
+                 lookup D (sget w (g_data g)) = Some b -> e_parse e b <> None) ->
+  (forall g o, In g (collect m idx) -> In o (g_req g) -> has (sget (p_w out) (gc g)) o = true) /\
+  (forall c o b, lookup o (sget (p_w out) c) = Some b ->
+     lookup o (sget w c) = Some b \/
+     exists g, In g (collect m idx) /\ gc g = c /\ In o (g_req g) /\ In o (reachable idx) /\
+               lookup o (sget w (g_data g)) = Some b).
+Proof. exact fetch_exact_seq. Qed.
+Print Assumptions C18_fetch_exact.
+
+(* checkout from the fetched caches reproduces the data: after a fault-free fetch into empty caches,
+   every file entry whose key has a remote is linked with the bytes its object has in a remote.
+   The last hypothesis is the fetch-side complement of the recorded finding: the cache the mapping
+   designates for a key is the cache of the group of the key's remote. *)
+Theorem C18_checkout : forall e m idx w out,
+  NoDup (map fst m) ->
+  ord_ok (e_bord e) -> ord_ok (e_dord e) ->
+  (forall b l f, e_parse e b = Some l -> In f l -> is_dir_oid f = false) ->
+  e_parse e [] = None ->
+  (forall s1 s2 D b1 b2, lookup D (sget w s1) = Some b1 -> lookup D (sget w s2) = Some b2 ->
+                         e_parse e b1 = e_parse e b2) ->
+  run_round e RFetch m idx w = out -> p_err out = None ->
+  seqok RFetch (collect m idx) ->
+  (forall g, In g (collect m idx) -> sget w (gc g) = []) ->
+  (forall g, In g (collect m idx) -> req_closed e w g) ->
+  (forall s o, e_fails e s o = false) ->
+  (forall g o, In g (collect m idx) -> In o (g_req g) -> has (sget w (g_data g)) o = true) ->
+  (forall g D b, In g (collect m idx) -> is_dir_oid D = true ->
+                 lookup D (sget w (g_data g)) = Some b -> e_parse e b <> None) ->
+  (forall g k o, In g (collect m idx) -> In (k, o) (entries m idx) ->
+                 remote_of m k = Some (g_data g) -> cache_of m k = g_cache g) ->
+  forall k o r, In (k, o) (entries m idx) -> is_file_oid o = true -> remote_of m k = Some r ->
+    exists b r', lookup o (sget w r') = Some b /\ In (k, Some b) (checkout_view m idx (p_w out)).
+Proof. exact checkout_spec_seq. Qed.
+Print Assumptions C18_checkout.
+
+(* the same composed with C18_fetch_exact_partial (one cache per remote group): the bytes are the
+   ones of the key's own remote *)
+Theorem C18_checkout_own_remote : forall e m idx w out,
+  NoDup (map fst m) ->
+  run_round e RFetch m idx w = out -> p_err out = None ->
+  indep RFetch (collect m idx) ->
+  (forall g, In g (collect m idx) -> wf (gin e RFetch w g)) ->
+  (forall s o, e_fails e s o = false) ->
+  (forall g o, In g (collect m idx) -> In o (g_req g) -> has (sget w (g_data g)) o = true) ->
+  (forall g D b, In g (collect m idx) -> is_dir_oid D = true ->
+                 lookup D (sget w (g_data g)) = Some b -> e_parse e b <> None) ->
+  (forall g, In g (collect m idx) -> sget w (gc g) = []) ->
+  (forall g k o, In g (collect m idx) -> In (k, o) (entries m idx) ->
+                 remote_of m k = Some (g_data g) -> cache_of m k = g_cache g) ->
+  forall k o r, In (k, o) (entries m idx) -> is_file_oid o = true -> remote_of m k = Some r ->
+    exists b, lookup o (sget w r) = Some b /\ In (k, Some b) (checkout_view m idx (p_w out)).
+Proof. exact checkout_spec. Qed.
+Print Assumptions C18_checkout_own_remote.
+
+(* the general, sequential form behind both: destinations may coincide, sources are never
+   destinations, every transfer well-formed at its turn *)
+Theorem C18_seq : forall e k, (forall s o, e_fails e s o = false) -> forall gs w a b out,
+  seqok k gs -> turns wf e k gs w -> run_groups e k gs w a b = out -> p_err out = None ->
+  (forall g o, In g gs -> In o (g_req g) -> has (sget w (gsrc k g)) o = true) ->
+  (forall g D bb, In g gs -> is_dir_oid D = true ->
+                  lookup D (sget w (gsrc k g)) = Some bb -> e_parse e bb <> None) ->
+  (forall s, (forall g, In g gs -> gd k g <> s) -> sget (p_w out) s = sget w s) /\
+  (forall s o bb, lookup o (sget (p_w out) s) = Some bb ->
+     lookup o (sget w s) = Some bb \/
+     exists g, In g gs /\ gd k g = s /\ In o (g_req g) /\ lookup o (sget w (gsrc k g)) = Some bb) /\
+  (forall s o, has (sget w s) o = true -> lookup o (sget (p_w out) s) = lookup o (sget w s)) /\
+  (forall g o, In g gs -> In o (g_req g) -> has (sget (p_w out) (gd k g)) o = true).
+Proof. exact seq_spec. Qed.
+Print Assumptions C18_seq.
+
+(* non-vacuity of C18_fetch_exact / C18_checkout: two remote groups, ONE empty cache (not [indep]) *)
+Theorem C18_fetch_hypotheses_satisfiable :
+  NoDup (map fst x_fmap1) /\
+  ord_ok (e_bord (x_env nofail)) /\ ord_ok (e_dord (x_env nofail)) /\
+  (forall b l f, x_parse b = Some l -> In f l -> is_dir_oid f = false) /\
+  x_parse [] = None /\
+  (forall s1 s2 D b1 b2, lookup D (sget x_w3 s1) = Some b1 -> lookup D (sget x_w3 s2) = Some b2 ->
+                         x_parse b1 = x_parse b2) /\
+  seqok RFetch (collect x_fmap1 x_idx) /\ ~ indep RFetch (collect x_fmap1 x_idx) /\
+  (forall g, In g (collect x_fmap1 x_idx) -> sget x_w3 (gc g) = []) /\
+  (forall g, In g (collect x_fmap1 x_idx) -> req_closed (x_env nofail) x_w3 g) /\
+  (forall g o, In g (collect x_fmap1 x_idx) -> In o (g_req g) -> has (sget x_w3 (g_data g)) o = true) /\
+  (forall g D b, In g (collect x_fmap1 x_idx) -> is_dir_oid D = true ->
+                 lookup D (sget x_w3 (g_data g)) = Some b -> x_parse b <> None) /\
+  (forall g k o, In g (collect x_fmap1 x_idx) -> In (k, o) (entries x_fmap1 x_idx) ->
+                 remote_of x_fmap1 k = Some (g_data g) -> cache_of x_fmap1 k = g_cache g).
+Proof. exact x_fetch_seq_hyps. Qed.
+Print Assumptions C18_fetch_hypotheses_satisfiable.
+
 (* pushed + failed (fetched + failed) = sum over the groups of |status.new| *)
 Theorem C18_counts : forall e k m idx w out,
   run_round e k m idx w = out -> p_err out = None -> indep k (collect m idx) ->
@@ -176,7 +289,9 @@ Theorem C18_wf_preserved : forall i1 i2,
   t_src i2 = t_src i1 -> t_dst i2 = dst_after i1 -> t_parse i2 = t_parse i1 ->
   t_req i2 = t_req i1 -> t_shallow i2 = t_shallow i1 ->
   (t_dix i2 = None \/ t_dix i2 = Some []) ->
-  ord_ok (t_bord i2) -> ord_ok (t_dord i2) -> wf i2.
+  ord_ok (t_bord i2) -> ord_ok (t_dord i2) ->
+  (forall x, t_part i1 x = false) ->          (* atomic uploads in the first round: what push / fetch model *)
+  t_trunc i2 = t_trunc i1 -> wf i2.
 Proof. exact wf_next. Qed.
 Print Assumptions C18_wf_preserved.
 
